@@ -158,6 +158,17 @@ func (in *Interp) pickNext(cur *Thread) *Thread {
 }
 
 // schedPoint lets the explorer switch threads.
+// schedPointSync is a scheduling point at a mutex or atomic operation; in
+// "chan" mode only channel operations, go and thread exit are scheduling
+// points (mutex-protected sections and atomics are then assumed not to
+// interact with the protocol under test other than through blocking).
+func (in *Interp) schedPointSync() {
+	if in.chanOnly {
+		return
+	}
+	in.schedPoint()
+}
+
 func (in *Interp) schedPoint() {
 	if len(in.threads) <= 1 {
 		return
@@ -190,6 +201,9 @@ func (in *Interp) switchTo(cur, next *Thread) {
 func (in *Interp) block(cond func() bool, what string, pos token.Pos) {
 	cur := in.cur
 	if cond() {
+		if in.chanOnly && (what == "Mutex.Lock" || what == "RWMutex.Lock" || what == "RWMutex.RLock") {
+			return
+		}
 		in.schedPoint()
 		if cond() {
 			return
@@ -252,7 +266,7 @@ func (in *Interp) mutexUnlock(cell *Value, pos token.Pos) {
 		panic(targetPanic{msg: "fatal error: sync: unlock of unlocked mutex", pos: pos})
 	}
 	*cell = in.ts.Const(32, 0)
-	in.schedPoint()
+	in.schedPointSync()
 }
 
 func (in *Interp) rwLock(s Struct, pos token.Pos) {
